@@ -331,6 +331,16 @@ func c17GenCase(root *vf.Rand, i int) c17Case {
 
 	execSome(30)
 
+	// rule A then rule B on one shared real cache (cross-rule cache reuse)
+	if n >= 2 {
+		for x := 0; x < 2; x++ {
+			a, b := r.Intn(n), r.Intn(n)
+			if a != b {
+				c.Ops = append(c.Ops, c17Op{Op: "cross", I: a, Src: b})
+			}
+		}
+	}
+
 	return c
 }
 
@@ -436,15 +446,29 @@ type c17Runner struct {
 	intern  map[uint64]int
 	istr    map[string]int
 	solos   map[string]*c17Solo
-	nodes   int
+	nodes    int
 	unstable bool
+	soloRefs int      // overrides whose reference had to be taken from the minimal history (merged config did not load)
+	used     map[string]*c17Solo // the references the case actually relies on (behaviour table)
+	mask     [][]bool // per prototype: fields that differ between two fresh loads of the same catalogue (instance identity, not configuration)
 }
 
 type c17Solo struct {
 	ok     bool
 	view   []int
-	digest int
+	digest int    // full behaviour (always-miss cache): outcome + cache TTLs + requests sent
+	out    int    // outcome only (error kind, subject, upstream headers/cookies, outputs, pipeline error)
 	raw    string
+	merged bool // reference taken from a catalogue whose prototype is configured with catalogue (+) overrides
+}
+
+// c17Outcome: the part of a behaviour string that does not depend on whether a cache entry was hit
+func c17Outcome(raw string) string {
+	if i := strings.Index(raw, " ttls="); i >= 0 {
+		return raw[:i]
+	}
+
+	return raw
 }
 
 func (rn *c17Runner) id(h uint64) int {
@@ -465,6 +489,21 @@ func (rn *c17Runner) sid(s string) int {
 
 	v := len(rn.istr) + 1
 	rn.istr[s] = v
+
+	return v
+}
+
+// viewOf: the view of an instance deriving from prototype [origin]; fields that are not a function of the
+// configuration (they differ between two fresh loads) are blanked.
+func (rn *c17Runner) viewOf(m any, origin int) []int {
+	v := rn.view(m)
+	if origin < len(rn.mask) {
+		for i := range v {
+			if i < len(rn.mask[origin]) && rn.mask[origin][i] {
+				v[i] = 0
+			}
+		}
+	}
 
 	return v
 }
@@ -524,17 +563,178 @@ func (rn *c17Runner) solo(origin int, chain []map[string]any) *c17Solo {
 		return s
 	}
 
-	s.ok = true
-	s.view = rn.view(m)
-	s.raw = c17Exec(kind, m, rn.c.Variant)
-	s.digest = rn.sid(s.raw)
-
-	// executing must not have changed it either (otherwise the reference itself is unstable)
-	if !c17EqInts(s.view, rn.view(m)) {
-		rn.unstable = true
-	}
+	rn.fill(s, kind, m, origin)
 
 	return s
+}
+
+func (rn *c17Runner) fill(s *c17Solo, kind string, m any, origin int) {
+	s.ok = true
+	s.view = rn.viewOf(m, origin)
+	s.raw = c17Exec(kind, m, rn.c.Variant)
+	s.digest = rn.sid(s.raw)
+	s.out = rn.sid("out:" + c17Outcome(s.raw))
+
+	// executing must not have changed it either (otherwise the reference itself is unstable)
+	if !c17EqInts(s.view, rn.viewOf(m, origin)) {
+		rn.unstable = true
+	}
+}
+
+// merged: the implementation-INDEPENDENT reference for "catalogue configuration overlaid with own overrides": a
+// fresh catalogue whose prototype is configured with c17Merge(catalogue config, overrides…) — built by the
+// constructor, not by WithConfig.  nil if that configuration does not load.
+func (rn *c17Runner) merged(origin int, chain []map[string]any) *c17Solo {
+	k := "merged|" + c17ChainKey(origin, chain)
+	if s, ok := rn.solos[k]; ok {
+		if s.ok {
+			return s
+		}
+
+		return nil
+	}
+
+	s := &c17Solo{merged: true}
+	rn.solos[k] = s
+
+	sp := c17SpecOf(rn.c.Cat[origin].Kind, rn.c.Cat[origin].Type)
+	conf := rn.c.Cat[origin].Conf
+
+	for _, o := range chain {
+		conf = c17Merge(sp, conf, o)
+	}
+
+	cat := append([]c17Proto{}, rn.c.Cat...)
+	cat[origin].Conf = conf
+
+	f, err := c17Factory(cat)
+	if err != nil {
+		return nil
+	}
+
+	m, err := c17Create(f, cat[origin].Kind, fmt.Sprintf("p%d", origin), nil)
+	if err != nil || m == nil {
+		return nil
+	}
+
+	rn.fill(s, cat[origin].Kind, m, origin)
+
+	return s
+}
+
+// ref: what an instance with this chain of overrides is specified to look like and to do
+func (rn *c17Runner) ref(origin int, chain []map[string]any) *c17Solo {
+	s := rn.solo(origin, chain)
+	if !s.ok {
+		return s
+	}
+
+	if len(chain) > 0 {
+		if mg := rn.merged(origin, chain); mg != nil {
+			s = mg
+		} else {
+			rn.soloRefs++
+		}
+	}
+
+	if rn.used == nil {
+		rn.used = map[string]*c17Solo{}
+	}
+
+	rn.used[c17ChainKey(origin, chain)] = s
+
+	return s
+}
+
+// c17GetWithBodyCached: does the configuration contain an endpoint with method GET and http_cache.enabled?
+func c17GetWithBodyCached(conf map[string]any) bool {
+	for _, v := range conf {
+		e, ok := v.(map[string]any)
+		if !ok {
+			continue
+		}
+
+		hc, _ := e["http_cache"].(map[string]any)
+		if en, _ := hc["enabled"].(bool); en && e["method"] == "GET" && e["url"] != nil {
+			return true
+		}
+	}
+
+	return false
+}
+
+func c17IsEmpty(v any) bool {
+	switch x := v.(type) {
+	case nil:
+		return true
+	case string:
+		return x == ""
+	case []any:
+		return len(x) == 0
+	case map[string]any:
+		return len(x) == 0
+	}
+
+	return false
+}
+
+// c17Merge: the override semantics of heimdall's rule-level `config` as documented per mechanism: an option given
+// in the override replaces the catalogue's; `assertions` and `values` are merged entry by entry (empty entries do
+// not override); the `header` of the oauth2_client_credentials finalizer keeps the catalogue's scheme if the
+// override gives none; mechanisms without reconfigurable options ignore the override.  (A first version copied the
+// then-recorded finding C10-F3 "cache_ttl: 0s of the remote authorizer does not override"; the reference flagged it
+// as soon as fix e0dc5e2 had repaired that — the reference is independent of WithConfig.)
+func c17Merge(sp *c17Spec, base, o map[string]any) map[string]any {
+	out := c17Copy(base).(map[string]any)
+	if out == nil {
+		out = map[string]any{}
+	}
+
+	switch sp.goType {
+	case "unauthorizedAuthenticator", "allowAuthorizer", "denyAuthorizer", "noopFinalizer":
+		return out
+	}
+
+	for k, v := range o {
+		switch {
+		case k == "assertions" || k == "values":
+			sub := map[string]any{}
+			if b, ok := out[k].(map[string]any); ok {
+				sub = b
+			}
+
+			if ov, ok := v.(map[string]any); ok {
+				for kk, vv := range ov {
+					if !c17IsEmpty(vv) {
+						sub[kk] = vv
+					}
+				}
+			}
+
+			// an override without entries leaves an absent option absent (nil, not an empty map)
+			if _, had := out[k]; had || len(sub) > 0 {
+				out[k] = sub
+			}
+		case k == "header" && sp.goType == "oauth2ClientCredentialsFinalizer":
+			sub := map[string]any{}
+			if b, ok := out[k].(map[string]any); ok {
+				sub = b
+			}
+
+			if ov, ok := v.(map[string]any); ok {
+				sub["name"] = ov["name"]
+				if !c17IsEmpty(ov["scheme"]) {
+					sub["scheme"] = ov["scheme"]
+				}
+			}
+
+			out[k] = sub
+		default:
+			out[k] = c17Copy(v)
+		}
+	}
+
+	return out
 }
 
 func c17EqInts(a, b []int) bool {
@@ -580,7 +780,7 @@ func c17OptInts(xs []int, present bool) string {
 // run executes the case and renders it.  Returns the observation, the Gallina term, tags.
 func (rn *c17Runner) run() (obs map[string]any, coq string, tags []string, nontrivial bool) {
 	c := rn.c
-	tags = append(tags, "type:"+c.Cat[0].GoType, fmt.Sprintf("catalogue:%d", len(c.Cat)))
+	tags = append(tags, fmt.Sprintf("catalogue:%d", len(c.Cat)))
 
 	f, err := c17Factory(c.Cat)
 	if err != nil {
@@ -598,19 +798,53 @@ func (rn *c17Runner) run() (obs map[string]any, coq string, tags []string, nontr
 		insts = append(insts, &c17Inst{kind: p.Kind, m: pm, origin: i})
 	}
 
-	// catalogue views and behaviour table come from the minimal histories
+	// fields that are not a function of the configuration (they differ between two fresh loads of the same
+	// catalogue: instance ids, timestamps …) are blanked in every view of the case
+	if f2, err := c17Factory(c.Cat); err == nil {
+		nm := 0
+
+		for i, p := range c.Cat {
+			var mk []bool
+
+			if m2, err := c17Create(f2, p.Kind, fmt.Sprintf("p%d", i), nil); err == nil {
+				a, b := rn.view(insts[i].m), rn.view(m2)
+				mk = make([]bool, len(a))
+
+				for x := range a {
+					if x >= len(b) || a[x] != b[x] {
+						mk[x] = true
+						nm++
+					}
+				}
+			}
+
+			rn.mask = append(rn.mask, mk)
+		}
+
+		if nm > 0 {
+			tags = append(tags, "fields-not-a-function-of-config")
+		}
+	}
+
+	// catalogue views come from the history's own prototypes (Go type by reflection), the behaviour table from the references
 	var catCoq []string
 
 	prev := [][]int{}
 
-	for i, p := range c.Cat {
+	for i := range c.Cat {
 		s := rn.solo(i, nil)
 		if !s.ok {
 			return map[string]any{"catalogue_rejected": "solo"}, "", append(tags, "catalogue-rejected"), false
 		}
 
-		catCoq = append(catCoq, "("+vf.CoqStr(p.GoType)+", "+c17Ints(s.view)+")")
-		prev = append(prev, s.view)
+		tn, _, _, _ := c17Fields(insts[i].m)
+		if i == 0 {
+			tags = append(tags, "type:"+tn)
+		}
+
+		v := rn.viewOf(insts[i].m, i)
+		catCoq = append(catCoq, "("+vf.CoqStr(tn)+", "+c17Ints(v)+")")
+		prev = append(prev, v)
 	}
 
 	var (
@@ -620,13 +854,16 @@ func (rn *c17Runner) run() (obs map[string]any, coq string, tags []string, nontr
 		nExec    int
 		nReject  int
 		nChanged int
+		nCross   int
+
+		skippedCross int
 	)
 
 	observe := func(st *c17Step, upto int) string {
 		var ch []string
 
 		for x := 0; x < upto; x++ {
-			v := rn.view(insts[x].m)
+			v := rn.viewOf(insts[x].m, insts[x].origin)
 			if !c17EqInts(v, prev[x]) {
 				st.Changed = append(st.Changed, append([]int{x}, v...))
 				ch = append(ch, fmt.Sprintf("(%d%%nat, %s)", x, c17Ints(v)))
@@ -644,7 +881,7 @@ func (rn *c17Runner) run() (obs map[string]any, coq string, tags []string, nontr
 			src := op.Src % len(insts)
 			si := insts[src]
 			chain := append(append([]map[string]any{}, si.chain...), op.Ovr)
-			base, ref := rn.solo(si.origin, si.chain), rn.solo(si.origin, chain)
+			base, ref := rn.ref(si.origin, si.chain), rn.ref(si.origin, chain)
 
 			var (
 				nm   any
@@ -664,7 +901,7 @@ func (rn *c17Runner) run() (obs map[string]any, coq string, tags []string, nontr
 
 			if werr == nil && nm != nil {
 				insts = append(insts, &c17Inst{kind: si.kind, m: nm, origin: si.origin, chain: chain})
-				newView = rn.view(nm)
+				newView = rn.viewOf(nm, si.origin)
 				st.New = newView
 				prev = append(prev, newView)
 			} else if werr != nil && strings.HasPrefix(werr.Error(), "PANIC") {
@@ -706,6 +943,31 @@ func (rn *c17Runner) run() (obs map[string]any, coq string, tags []string, nontr
 			opsCoq = append(opsCoq, fmt.Sprintf("(XExec %d, os None %s (Some %d%%Z))", x, chg, st.Beh))
 			steps = append(steps, st)
 			nExec++
+		case "cross":
+			// A then B on ONE shared, real cache; B's outcome must be what B does alone
+			x, y := op.I%len(insts), op.Src%len(insts)
+
+			if c17GetWithBodyCached(c.Cat[insts[y].origin].Conf) {
+				// an endpoint called with GET *and* a request body *and* http_cache enabled: the HTTP cache keys a
+				// response by method + URL (RFC 7234 §2), so two rules that differ only in the rendered body share
+				// it.  Outside HTTP semantics (a GET body has none); not counted against C17, see docs/notes/C17.md.
+				skippedCross++
+
+				continue
+			}
+			shared := &c17Cache{keep: map[string][]byte{}}
+			c17ExecWith(insts[x].kind, insts[x].m, c.Variant, shared)
+			raw := c17ExecWith(insts[y].kind, insts[y].m, c.Variant, shared)
+			st := c17Step{Op: fmt.Sprintf("cross %d %d", x, y), Beh: rn.sid("out:" + c17Outcome(raw))}
+
+			if strings.HasPrefix(raw, "PANIC") {
+				st.Note = raw
+			}
+
+			chg := observe(&st, len(insts))
+			opsCoq = append(opsCoq, fmt.Sprintf("(XCross %d %d, os None %s (Some %d%%Z))", x, y, chg, st.Beh))
+			steps = append(steps, st)
+			nCross++
 		case "call":
 			x := op.I % len(insts)
 			st := c17Step{Op: fmt.Sprintf("call %d", x), Acc: c17Accessors(insts[x].kind, insts[x].m)}
@@ -716,8 +978,16 @@ func (rn *c17Runner) run() (obs map[string]any, coq string, tags []string, nontr
 	}
 
 	// behaviour table: view -> digest, from every minimal history used
-	keys := make([]string, 0, len(rn.solos))
-	for k := range rn.solos {
+	for i := range c.Cat {
+		rn.ref(i, nil)
+	}
+
+	for _, in := range insts {
+		rn.ref(in.origin, in.chain)
+	}
+
+	keys := make([]string, 0, len(rn.used))
+	for k := range rn.used {
 		keys = append(keys, k)
 	}
 
@@ -726,15 +996,31 @@ func (rn *c17Runner) run() (obs map[string]any, coq string, tags []string, nontr
 	var beh []string
 
 	for _, k := range keys {
-		if s := rn.solos[k]; s.ok {
-			beh = append(beh, fmt.Sprintf("(%s, %d%%Z)", c17Ints(s.view), s.digest))
+		if s := rn.used[k]; s.ok {
+			beh = append(beh, fmt.Sprintf("(%s, (%d%%Z, %d%%Z))", c17Ints(s.view), s.digest, s.out))
 		}
 	}
 
 	coq = fmt.Sprintf("(cs [%s] [%s] [%s])", strings.Join(catCoq, "; "), strings.Join(beh, "; "), strings.Join(opsCoq, "; "))
 
 	tags = append(tags, fmt.Sprintf("variants:%d", nWith), fmt.Sprintf("rejected:%d", nReject),
-		fmt.Sprintf("execs:%d", min(nExec, 6)), fmt.Sprintf("request:%d", c.Variant))
+		fmt.Sprintf("execs:%d", min(nExec, 6)), fmt.Sprintf("request:%d", c.Variant), fmt.Sprintf("cross-cache:%d", min(nCross, 3)))
+	if rn.soloRefs > 0 {
+		tags = append(tags, "reference:minimal-history")
+	}
+
+	if skippedCross > 0 {
+		tags = append(tags, "cross-cache-skipped:GET-with-body+http_cache")
+	}
+
+	for _, s := range rn.solos {
+		if s.ok && s.merged {
+			tags = append(tags, "reference:merged-catalogue")
+
+			break
+		}
+	}
+
 	if nChanged > 0 {
 		tags = append(tags, "instance-changed")
 	}
@@ -810,7 +1096,7 @@ func c17Corpus() []c17Case {
 		c.Ops = []c17Op{
 			{Op: "exec", I: 0}, {Op: "with", Src: 0, Ovr: o1}, {Op: "exec", I: 0}, {Op: "exec", I: 1}, {Op: "call", I: 0},
 			{Op: "with", Src: 0, Ovr: o2}, {Op: "exec", I: 2}, {Op: "exec", I: 1}, {Op: "exec", I: 0}, {Op: "with", Src: 0, Ovr: map[string]any{}},
-			{Op: "exec", I: 3}, {Op: "call", I: 1},
+			{Op: "exec", I: 3}, {Op: "call", I: 1}, {Op: "cross", I: 1, Src: 2}, {Op: "cross", I: 2, Src: 0}, {Op: "cross", I: 0, Src: 1},
 		}
 		out = append(out, c)
 	}
